@@ -85,6 +85,10 @@ def site_lemma_tla(classes):
     return "\n".join(lines) + "\n", red
 
 
+# hint sites outside GlGadgets' four inside this code region are probed with generic alternatives after run() (bin/check, common.Ctx.foreign)
+FOREIGN = (("goldilocks.",), ("testdata",))
+
+
 def run(ctx):
     ctx.rule = ("every static hint site of the whole verifier (call chain of depth <= 6 inside the repository), first occurrence and "
                 "one seeded occurrence, x every adversarial alternative of the model for that hint; trivial = the alternative coincides "
